@@ -524,6 +524,15 @@ func c05ReadConversion(text string) *c05Conv {
 			r.events = append(r.events, "end")
 			continue
 		}
+		if l == "} else {" {
+			r.events = append(r.events, "else")
+			continue
+		}
+		if d, ok := c05Between(l, "", " = {};"); ok && !strings.Contains(d, " ") {
+			// assignment of the zero value (not a declaration: no type in front of the name)
+			r.events = append(r.events, "zero "+d)
+			continue
+		}
 		if d, ok := c05Between(l, "", " item = {};"); ok {
 			r.events = append(r.events, "decl-item "+d)
 			continue
@@ -573,9 +582,10 @@ func c05ExpectedFlow(chain string) []string {
 	for i := 0; i < len(chain); i++ {
 		switch chain[i] {
 		case 'o':
+			// a null source gives the destination its zero value (the destination may be a reused object)
 			ev = append(ev, "if-has-value "+src)
 			src += ".value()"
-			closing = append([]string{"end"}, closing...)
+			closing = append([]string{"else", "zero " + dst, "end"}, closing...)
 		default:
 			if chain[i] != 'f' { // a fixed-length destination needs no sizing
 				ev = append(ev, "resize "+dst+" "+src)
@@ -646,6 +656,11 @@ func c05WellFormed(events []string, dstType string) (redeclared, badResize, badS
 			if t, _ := lookup(f[1]); kind(t) != "vector" && kind(t) != "array" && badStore == "" {
 				badStore = kind(t)
 			}
+		case "else":
+			if len(scopes) > 1 {
+				scopes = scopes[:len(scopes)-1]
+			}
+			scopes = append(scopes, map[string]string{})
 		case "end":
 			if len(scopes) > 1 {
 				scopes = scopes[:len(scopes)-1]
